@@ -26,8 +26,9 @@ import (
 // three generated rule lists are given with --header, --connect-header and --response-header; a GET, a CONNECT
 // and (with MITM) a request inside an intercepted tunnel are sent, directly or through an upstream proxy; every
 // message that leaves the proxy is compared, on the marker fields, with the documented meaning of exactly the
-// list that belongs to its kind. Within one list every rule touches a different field name, so the meaning of
-// the list is unambiguous and the oracle is a few lines (the meaning of interacting rules is C16's Apply check).
+// list that belongs to its kind. Within one list every rule touches a different field name - except that a last rule
+// may remove or respell what an earlier add/empty rule produced - so the meaning of the list is unambiguous and the
+// oracle is a few lines (the meaning of interacting rules in general is C16's Apply check).
 
 type DRule struct {
 	Action string `json:"action"` // add | empty | remove | prefix | spell
@@ -93,6 +94,17 @@ func genDRules(t *rapid.T, label string) []DRule {
 			}
 		}
 		out = append(out, r)
+	}
+	// now and then a later rule undoes or respells what an earlier rule of the same list produced (the order matters)
+	if len(out) > 0 && rapid.IntRange(0, 2).Draw(t, label+"followup") == 0 {
+		first := out[rapid.IntRange(0, len(out)-1).Draw(t, label+"followupof")]
+		if first.Action == "add" || first.Action == "empty" {
+			if rapid.Bool().Draw(t, label+"followupkind") {
+				out = append(out, DRule{Action: "remove", Name: strings.ToUpper(first.Name)})
+			} else {
+				out = append(out, DRule{Action: "spell", Name: strings.ToLower(first.Name)})
+			}
+		}
 	}
 	return out
 }
